@@ -61,8 +61,8 @@ theorem finishUnstakingStep_moves {L L' : Ledger} {a : Addr} (h : finishUnstakin
     split at h
     · cases h
     · next L1 h1 =>
-      obtain ⟨acc, rfl, e1⟩ := accountAdd_ok h1
-      have hv1 : valGet? { L with accounts := acc } a = some val := hv
+      obtain ⟨acc, vs, rfl, e1⟩ := accountAdd_ok h1
+      have hv1 : valGet? { L with accounts := acc, vesting := vs } a = some val := hv
       obtain ⟨t, b⟩ := deleteValidator_bal hv1 h
       ledger_norm; omega
 
